@@ -34,6 +34,7 @@ func (c14) Gen(r *rand.Rand, tier string, run int) *core.Case {
 	c.Params["clients"] = clients
 	c.Params["conns"] = 1 + r.IntN(clients)
 	c.Params["subscribers"] = 1 + r.IntN(2)
+	c.Params["instrument"] = []int{0, 0, 0, 1, 2, 3}[r.IntN(6)]
 	next := int64(1)
 	total := 0
 	for k := 0; k < clients && total < 13; k++ {
@@ -147,6 +148,21 @@ func (c14) Run(c *core.Case, env *core.Env) {
 			return
 		}
 		proxies = append(proxies, p)
+	}
+	if k := c.P("instrument", 0); k > 0 {
+		if k&1 != 0 {
+			if err := proxies[0].EnableStats(true); err != nil {
+				env.Violate("setup/stats", "%v", err)
+				return
+			}
+		}
+		if k&2 != 0 {
+			if err := proxies[0].EnableTrace(true); err != nil {
+				env.Violate("setup/trace", "%v", err)
+				return
+			}
+		}
+		env.Probe("object-instrumented")
 	}
 	// churning subscribers register first (so that they are not the last
 	// entries of the server's table) and leave during the run
